@@ -10,6 +10,7 @@ options (--opt k=v):
   echsx=PATH       binary under test (default /repo/src/echsx)
   bdir=DIR         where echsx_shim.so, mailrec, c13_job live (default <V>/build/plain/exec)
   keep=1           keep the case directories
+  knob=NAME        run only the cases of this knob (indices stay what they are)
 """
 import os, sys, subprocess, tempfile, shutil, time, signal
 sys.path.insert(0, os.path.dirname(os.path.abspath(__file__)))
@@ -22,7 +23,10 @@ KNOBS = ('cwd', 'umask', 'shell', 'ifile', 'noorg', 'noatt', 'mailrun', 'att2', 
 # clauses a knob can bear on; routing clauses do not carry the knob in their signature
 KNOB_CLAUSES = ('cwd', 'umask', 'stdin', 'shell', 'mail-unwanted', 'mail-count', 'mail-hdr', 'run-count', 'hang', 'echsx-died')
 # under the slowmail knob (2 s limit, job done at once, mailer busy for 4 s) every clause carries the knob
-ALL_CLAUSES_KNOBS = ('slowmail', 'mailfail', 'nomailer', 'slowpipe', 'relfile', 'devnull-o', 'devnull-e', 'stopcont')
+ALL_CLAUSES_KNOBS = ('slowmail', 'mailfail', 'nomailer', 'slowpipe', 'relfile', 'devnull-o', 'devnull-e', 'stopcont', 'earlyexit')
+# earlyexit: the job has terminated (and is still reapable) before posix_spawn returns to echsx; echsx must be back
+# within this many seconds
+EARLY_HORIZON = 5.0
 # flagorder: the three mail flag lines of the request in every order, X-ECHS-MAIL-RUN given as an explicit 0
 FLAG_ORDERS = ('ROE', 'REO', 'ORE', 'OER', 'ERO', 'EOR')
 # the umask menu: both ends, the usual ones, and the two largest values a request can carry
@@ -109,6 +113,14 @@ def extras(which):
         if which != 'quick' or r['name'] in ('R1', 'R6', 'R7', 'R14', 'R19', 'R20'):
             for o in FLAG_ORDERS:
                 out.append((r, 'alt50', '3', 'fo-' + o))
+    # earlyexit: the ordering "the job is over before echsx gets the answer of posix_spawn" made deterministic (the shim
+    # holds posix_spawn back until waitid(WNOWAIT) has seen the child's end); the complementary ordering (child alive
+    # when the loop starts) is what all the runs above are.  Jobs whose output fits a pipe only: nobody reads meanwhile.
+    for r in R:
+        if which != 'quick' or r['name'] in ('R1', 'R5', 'R13', 'R17', 'R20'):
+            for j in ('silent', 'alt50'):
+                for x in (('0', '3', 'term') if which == 'quick' else EXITS):
+                    out.append((r, j, x, 'earlyexit'))
     return out
 
 
@@ -127,6 +139,8 @@ def main():
         for row, jobm, ex, knob in cases(D.opt('set', 'quick')):
             if not D.next():
                 continue
+            if D.opt('knob') and knob != D.opt('knob'):
+                continue
             d = os.path.join(base, '%d' % D.idx)
             os.makedirs(os.path.join(d, 'run'))
             os.makedirs(os.path.join(d, 'wd'))
@@ -138,7 +152,7 @@ def main():
         # two executors at once on one journal, each through a descriptor of its own that stood at the end of the
         # journal when its executor was started (the way echsd opens it: no O_APPEND); the one started first ends last
         for order in ('slow-first',):
-            if not D.next():
+            if not D.next() or D.opt('knob'):
                 continue
             d = os.path.join(base, '%d' % D.idx)
             os.makedirs(os.path.join(d, 'run'))
@@ -147,6 +161,8 @@ def main():
                 shutil.rmtree(d, ignore_errors=True)
         for row, jobm, ex, knob in extras(D.opt('set', 'quick')):
             if not D.next():
+                continue
+            if D.opt('knob') and knob != D.opt('knob'):
                 continue
             d = os.path.join(base, '%d' % D.idx)
             os.makedirs(os.path.join(d, 'run'))
@@ -291,6 +307,10 @@ def run_case(D, d, row, jobm, ex, knob, uid, echsx, shim, rec, job):
         # the mailer takes the message and reports EX_TEMPFAIL: echsx may complain, but the job has run, its
         # status is journalled and nothing is left behind
         env['E3_MAILEXIT'] = '75'
+    horizon = D.case_timeout
+    if knob == 'earlyexit':
+        env['E3_SPAWNWAIT'] = '1'
+        horizon = min(horizon, EARLY_HORIZON)
     t0 = int(time.time())
     with open(os.path.join(d, 'req.ics'), 'rb') as fi, open(os.path.join(d, 'journal'), 'wb') as fo, \
             open(os.path.join(d, 'echsx.err'), 'wb') as fe:
@@ -308,14 +328,20 @@ def run_case(D, d, row, jobm, ex, knob, uid, echsx, shim, rec, job):
             except OSError:
                 pass
         try:
-            rc = p.wait(timeout=D.case_timeout)
+            rc = p.wait(timeout=horizon)
         except subprocess.TimeoutExpired:
             try:
                 os.killpg(p.pid, signal.SIGKILL)
             except OSError:
                 pass
             p.wait()
-            D.viol('hang/%s/%s/%s' % (row['name'], jobm, ex), 'echsx did not finish within %.0f s' % D.case_timeout)
+            if knob == 'earlyexit':
+                waited = [e for e in shim_events(rd(os.path.join(d, 'shim.log'))) if e.startswith('spawn-waited rc=0 ')]
+                D.viol('hang/early-exit/%s' % ex, 'the job (row %s, %s) had terminated before posix_spawn returned to echsx (%s); '
+                       'echsx did not finish within %.0f s: journal %r' % (row['name'], jobm, waited[0] if waited else 'shim did not see it',
+                                                                          horizon, (rd(os.path.join(d, 'journal')) or b'')[:200]))
+            else:
+                D.viol('hang/%s/%s/%s' % (row['name'], jobm, ex), 'echsx did not finish within %.0f s' % D.case_timeout)
             sweep_tmp(d)
             return
     t1 = int(time.time())
@@ -409,6 +435,12 @@ def run_case(D, d, row, jobm, ex, knob, uid, echsx, shim, rec, job):
         if knob and (clause in KNOB_CLAUSES or knob in ALL_CLAUSES_KNOBS or is_fo(knob)):
             sig += '/' + sig_knob(knob)
         D.viol(sig, detail)
+    if knob == 'earlyexit':
+        # guards the harness, not echsx: the shim must have seen the job's end before it let posix_spawn return
+        if not [e for e in ev if e.startswith('spawn-waited rc=0 ')]:
+            D.viol('harness/earlyexit', 'the shim did not hold posix_spawn back until the job had ended: %r' % (ev[:6],))
+        else:
+            D.count('early_exit_runs')
     if knob == 'stopcont' and not bad and rd(os.path.join(d, 'stopped')) != b'T\n':
         # guards the harness, not echsx: the job's helper must have seen the job stopped
         D.viol('harness/stopcont', 'the job was not seen in the stopped state before it was continued')
